@@ -43,6 +43,26 @@ CLAIMED = {
         note=TB + "No axioms. Name-location theorems over the whole pipeline are not proved yet (checked by the oracle on Go output).",
         tech="Rocq proof (result laws) + error-projection correspondence + location oracle",
         ref="DESIGN.md 5/C17"),
+    "C13": dict(
+        text="Coq theorems (Numeric.v): for every numops implementation exact on the values involved, MaximumNativeType / "
+             "MinimumNativeType (as transcribed) report an error exactly when the carried rational exceeds / reaches the bound, for all "
+             "ten integer kinds and both float widths, hence the verdict is independent of the carrier; MultipleOf with an integral factor "
+             "on an integer carrier is integer divisibility. Tie: every (value, constraint) group is run through every exact carrier and "
+             "every entry point (helper, parameter, header, schema, json.Number), compared with the Flocq-instantiated model and with "
+             "exact rational arithmetic; the Flocq float model is compared with Go bit for bit on 20 000 operations per run.",
+        note=TB + "No axioms in the theorems (they are parametric in the numeric operations); that Flocq's binary64 satisfies the "
+             "exactness interface on +-2^53 is validated by the bit-exact float self-test, not proved. Fractional multipleOf and the "
+             "integer test are the recorded class numeric-inexact (swag dependency).",
+        tech="Rocq proof (carrier independence over an exactness interface) + multi-carrier correspondence + bit-exact float model test",
+        ref="DESIGN.md 5/C13"),
+    "C16": dict(
+        text="Coq theorems over the model of ParamValidator / HeaderValidator / itemsValidator: nil is not validated, every other value "
+             "is; the first-error exit of the six-validator chain is sound (the verdict is the conjunction of all applicable groups). "
+             "Tie: result projection (verdict, (code,name) set, MatchCount, error count) on typed Go values built by reflection, plain "
+             "and recycling; failing-input search against an exact simple-schema oracle with recorded finding classes.",
+        note=TB + "No axioms. The group-by-group equivalence with the declarative simple-schema semantics is checked by the oracle, not yet proved.",
+        tech="Rocq proof (chain soundness, nil handling) + typed-value correspondence + exact oracle",
+        ref="DESIGN.md 5/C16"),
 }
 
 checks = []
